@@ -201,7 +201,7 @@ func genC03Base(t *rapid.T) c03Case {
 	}
 	c.Code, c.Origin = drawSubmission(t, c.Key, c.Counter, s, d, a)
 	if !c.NilParam && rapid.IntRange(0, 7).Draw(t, "viaQ") == 0 {
-		c.Via = rapid.IntRange(1, 4).Draw(t, "via")
+		c.Via = rapid.IntRange(1, 6).Draw(t, "via")
 	}
 	return c
 }
@@ -411,7 +411,7 @@ func genC04Base(t *rapid.T) c04Case {
 	}
 	c.Code, c.Origin = drawSubmission(t, c.Key, n, s, d, a)
 	if !c.NilParam && rapid.IntRange(0, 7).Draw(t, "viaQ") == 0 {
-		c.Via = rapid.IntRange(1, 4).Draw(t, "via")
+		c.Via = rapid.IntRange(1, 6).Draw(t, "via")
 	}
 	return c
 }
